@@ -108,7 +108,8 @@ def main():
 
 
 def finish(sd, pid, res):
-    out = os.path.join(VERIF, "seeded", pid)
+    suffix = sys.argv[sys.argv.index("--suffix") + 1] if "--suffix" in sys.argv else ""
+    out = os.path.join(VERIF, "seeded", pid + suffix)
     os.makedirs(out, exist_ok=True)
     shutil.copy(os.path.join(sd, "patch.diff"), os.path.join(out, "patch.diff"))
     for dp, _, fs in os.walk(sd):
